@@ -457,3 +457,58 @@ class Binary(Harness):
 
 
 HARNESSES = [Merge(), Dense(), Sort(), ExtendClip(), Binary()]
+
+
+def prelude(tier):
+    """Concrete probes of the Geometry front end of the same operations (reported as real-run probes, not as solver verdicts): Geometry.sort
+    on every pair / triple of intervals of a small two-chromosome genome (nested, equal starts, equal stops, across chromosomes) against
+    Python's sorted by (chromosome, start), and Geometry.jaccard_all_vs_all on three interval sets against the per-base definition."""
+    import time
+    import numpy as np
+    from bionumpy.genomic_data.geometry import Geometry
+    from bionumpy.datatypes import Interval
+    t0 = time.time()
+    res = dict(obligations=0, discharged=0, queries=0, inconclusive=[], violations=[], samples=[])
+    sizes = {"chr1": 5, "chr2": 4}
+    geom = Geometry(sizes)
+    names = list(sizes)
+    ivs = [(c, a, b) for c in names for a in range(0, sizes[c], 1) for b in range(a + 1, sizes[c] + 1) if (a, b) in ((0, 4), (1, 2), (1, 3), (0, 2), (2, 4), (3, 4))]
+    n = 0
+    for k in (2, 3):
+        for combo in itertools.product(ivs, repeat=k):
+            n += 1
+            try:
+                r = geom.sort(Interval([c for c, _, _ in combo], [a for _, a, _ in combo], [b for _, _, b in combo]))
+                got = list(zip([c_.to_string() for c_ in r.chromosome], r.start.tolist(), r.stop.tolist()))
+            except Exception as e:
+                got = ("raised", type(e).__name__)
+            ok = isinstance(got, list) and sorted(got) == sorted(combo) and [(names.index(c), a) for c, a, _ in got] == sorted((names.index(c), a) for c, a, _ in combo)
+            if not ok and len(res["violations"]) < 3:
+                res["violations"].append(dict(obligation="geometry-sort", inputs=dict(intervals=[list(t) for t in combo]), output=repr(got),
+                                              why=f"[real run, concrete probe] Geometry({sizes}).sort({list(combo)}) = {got}: not the same intervals ordered by chromosome, start"))
+    sets = [[(0, 2)], [(1, 4)], [(3, 5)], [(0, 1), (2, 5)], [(1, 2)]]
+    m = 0
+    for trio in itertools.permutations(range(len(sets)), 3):
+        m += 1
+        masks = []
+        for i in trio:
+            d = np.zeros(5, dtype=bool)
+            for a, b in sets[i]:
+                d[a:b] = True
+            masks.append(d)
+        exp = np.zeros((3, 3))
+        for i in range(3):
+            for j in range(3):
+                if i != j:
+                    exp[i, j] = (masks[i] & masks[j]).sum() / (masks[i] | masks[j]).sum()
+        try:
+            got = Geometry({"chr1": 5}).jaccard_all_vs_all([Interval(["chr1"] * len(sets[i]), [a for a, _ in sets[i]], [b for _, b in sets[i]]) for i in trio])
+            ok = np.allclose(np.asarray(got, dtype=float), exp)
+        except Exception as e:
+            got, ok = ("raised", type(e).__name__), False
+        if not ok and len(res["violations"]) < 5:
+            res["violations"].append(dict(obligation="jaccard-all-vs-all", inputs=dict(sets=[sets[i] for i in trio]), output=repr(got),
+                                          why=f"[real run, concrete probe] jaccard_all_vs_all of the sets {[sets[i] for i in trio]} on a contig of size 5 = {np.asarray(got).tolist() if not isinstance(got, tuple) else got}, per-base definition {exp.tolist()}"))
+    res["solver_s"] = time.time() - t0
+    res["summary"] = f"Geometry.sort probed on {n} interval tuples, jaccard_all_vs_all on {m} triples of sets: {len(res['violations'])} deviations"
+    return res
